@@ -2944,6 +2944,14 @@ int x509_exts_check(const uint8_t *exts, size_t extslen, int cert_type,
 		}
 	}
 
+	// a certificate acting as issuer must carry BasicConstraints with cA = TRUE
+	if (cert_type == X509_cert_ca || cert_type == X509_cert_root_ca) {
+		if (ca != 1) {
+			error_print();
+			return -1;
+		}
+	}
+
 	return 1;
 }
 
